@@ -25,9 +25,16 @@ DIAG = re.compile(r"^(Error|Notice): (\w+)\s+\(line:\s*(\d+), col:\s*(\d+)\):\t(
 VERDICT = re.compile(r"^(.+): (OK|Error)!$")
 
 
+UNKNOWN_R = ["CheckDefines", "NoCheckDefine", "checkdefine", "CheckDefine,Foo", "CheckDefin", "Check Define"]
+
+
 def vectors():
     for c, f, o, d, r in itertools.product(COLORS, FORMATS, ONLY, DEBUG, RVALS):
         yield c + f + o + d + r
+    # more unknown -R words (they must change nothing), in a reduced lattice
+    for w in UNKNOWN_R:
+        for f in ([], ["-f", "json"]):
+            yield ["--no-colors"] + f + ["-R", w]
 
 
 def parse(stdout, is_json):
@@ -88,7 +95,7 @@ def file_task(task):
                     return n, [("(none)", "no-verdict", f"stdout {o['stdout'][:200]!r}")], None
                 continue
             want = base[0]
-            if "CheckDefine" in vec:
+            if vec[-2:] == ["-R", "CheckDefine"]:
                 want = [(a, b2, [x for x in c if not (x[1] in DEFINE_CODES and x[2] in dl)]) for a, b2, c in want]
                 want = [(a, "OK" if all(x[0] == "Notice" for x in c) else "Error", c) for a, b2, c in want]
             if res != want:
